@@ -427,6 +427,25 @@ def cases(rng, tier, shard, nshards):
     cat = catalogue()
     if shard == 0:
         yield from corpus()
+    # systematic part (no randomness): every service once as `service:*`, and every catalogue entry whose text is unusual (a
+    # character other than letters and digits in the Name, a digit or hyphen in the service) as itself, as `service:*` and as a
+    # prefix pattern, through the single-pattern helper, the list helper and the statement -- added after seeded change
+    # C09-r4m1, a per-service index that silently dropped the one entry with a hyphen in its Name
+    services = sorted({a.split(":", 1)[0] for a in cat})
+    for i, svc in enumerate(services):
+        if i % nshards == shard:
+            yield EXPAND1, {"p": svc + ":*", "na": False}
+    import re as _re
+    odd = [a for a in cat if not _re.fullmatch(r"[a-z0-9-]+:[A-Za-z0-9]+", a)]
+    odd += [a for a in cat if _re.search(r"[0-9-]", a.split(":", 1)[0])][shard::max(1, 40 * nshards)]
+    for j, a in enumerate(odd):
+        if j % nshards == shard:
+            svc, name = a.split(":", 1)
+            yield EXPAND1, {"p": a, "na": False}
+            yield EXPAND1, {"p": a, "na": True}
+            yield EXPANDS, {"x": [svc + ":" + name[: max(1, len(name) // 2)] + "*", a], "na": False}
+            yield STMT, {"effect": "Allow", "action": [a], "notaction": None}
+            yield STMT, {"effect": "Allow", "action": svc + ":" + name[:3] + "*", "notaction": None}
     n = {"quick": 115, "thorough": 1000}[tier]
     for k in range(n):
         r = k % 10
@@ -445,6 +464,11 @@ def cases(rng, tier, shard, nshards):
                 na = rng.random() < 0.3
                 yield EXPANDS, {"x": ps, "na": na}
                 yield MODEL, {"statements": [{"effect": "Allow", "action": None if na else ps, "notaction": ps if na else None}]}
+                # ... and through the statement-level and document-level entry points (seeded change C09-r4m2 dropped a list
+                # member "covered" by an earlier one inside Statement.get_expanded_action_list only)
+                st = {"effect": "Allow", "action": None if na else ps, "notaction": ps if na else None}
+                yield STMT, dict(st)
+                yield ALLOWED, {"statements": [dict(st)], "single": rng.random() < 0.5}
         elif r == 6:
             yield ALLOWED, {"statements": gen_statements(rng, cat), "single": rng.random() < 0.3}
         elif r == 7:
